@@ -1,6 +1,8 @@
 import CTV.Basic.Proto
 import CTV.Rfc6962.Wire
+import CTV.Rfc6962.Api
 import CTV.Model.CtWire
+import CTV.Sha256
 /-! ctvmodel C04: answers every line of the C04 harness from the RFC transcription (`Rfc.*`) alone. -/
 namespace CTV.Driver.C04
 open CTV CTV.Proto
@@ -82,37 +84,164 @@ def decRes {α} (r : Option (α × Bytes)) (sh : α → String) : String :=
   | some (x, rest) => s!"ok {sh x} rest={hexOrDash rest}"
   | none => "err"
 
-/-! base64 (RFC 4648 §4, with padding; CR and LF are skipped and non-zero trailing bits tolerated, as Go's StdEncoding does) -/
+def asciiOf (b : Bytes) : List Char := b.map fun x => Char.ofNat x.toNat
 
-def b64Val (c : Char) : Option Nat :=
-  if 'A' ≤ c ∧ c ≤ 'Z' then some (c.toNat - 65)
-  else if 'a' ≤ c ∧ c ≤ 'z' then some (c.toNat - 71)
-  else if '0' ≤ c ∧ c ≤ '9' then some (c.toNat + 4)
-  else if c = '+' then some 62 else if c = '/' then some 63 else none
+/-! ### JSON messages (RFC 6962 §4): a value model, a printer in encoding/json's compact form, a small parser -/
 
-partial def b64Groups : List Char → Array UInt8 → Option Bytes
-  | [], acc => some acc.toList
-  | [a, b, '=', '='], acc =>
-    match b64Val a, b64Val b with
-    | some a, some b => some (acc.push (UInt8.ofNat ((a * 4 + b / 16) % 256))).toList
-    | _, _ => none
-  | [a, b, c, '='], acc =>
-    match b64Val a, b64Val b, b64Val c with
-    | some a, some b, some c =>
-      some ((acc.push (UInt8.ofNat ((a * 4 + b / 16) % 256))).push (UInt8.ofNat ((b * 16 + c / 4) % 256))).toList
-    | _, _, _ => none
-  | a :: b :: c :: d :: rest, acc =>
-    match b64Val a, b64Val b, b64Val c, b64Val d with
-    | some a, some b, some c, some d =>
-      b64Groups rest (((acc.push (UInt8.ofNat ((a * 4 + b / 16) % 256))).push (UInt8.ofNat ((b * 16 + c / 4) % 256))).push
-        (UInt8.ofNat ((c * 64 + d) % 256)))
-    | _, _, _, _ => none
+inductive JV where
+  | num (n : Nat)
+  | bytes (b : Bytes)
+  | list (bs : List Bytes)
+  | entries (es : List (Bytes × Bytes))
+
+def hexList (s : String) : Option (List Bytes) :=
+  if s = "" then some [] else (s.splitOn ",").mapM fromHex
+
+def parseJV (s : String) : Option JV :=
+  let body := String.ofList (s.toList.drop 1)
+  match s.front with
+  | 'n' => body.toNat?.map .num
+  | 'b' => (fromHex body).map .bytes
+  | 'l' => (hexList body).map .list
+  | 'e' =>
+    if body = "" then some (.entries [])
+    else ((body.splitOn ",").mapM fun (p : String) =>
+      match p.splitOn ":" with
+      | [a, b] => match fromHex a, fromHex b with
+        | some a, some b => some (a, b)
+        | _, _ => none
+      | _ => none).map .entries
+  | _ => none
+
+def q (cs : List Char) : String := "\"" ++ String.ofList cs ++ "\""
+
+def renderJV : JV → String
+  | .num n => toString n
+  | .bytes b => q (Rfc.b64Encode b)
+  | .list bs => "[" ++ ",".intercalate (bs.map fun b => q (Rfc.b64Encode b)) ++ "]"
+  | .entries es => "[" ++ ",".intercalate (es.map fun (a, b) =>
+      "{\"leaf_input\":" ++ q (Rfc.b64Encode a) ++ ",\"extra_data\":" ++ q (Rfc.b64Encode b) ++ "}") ++ "]"
+
+def showJV : JV → String
+  | .num n => s!"n{n}"
+  | .bytes b => "b" ++ hexOrDash b
+  | .list bs => "l" ++ ",".intercalate (bs.map hexOrDash)
+  | .entries es => "e" ++ ",".intercalate (es.map fun (a, b) => hexOrDash a ++ ":" ++ hexOrDash b)
+
+def kindOK : Rfc.JKind → JV → Bool
+  | .number, .num _ => true
+  | .base64, .bytes _ => true
+  | .base64List, .list _ => true
+  | .entryList, .entries _ => true
+  | _, _ => false
+
+/-- the message as JSON text: the RFC's field names in the RFC's order -/
+def renderMsg (fields : List (String × Rfc.JKind)) (ts : List String) : Option String := do
+  let parts ← fields.mapM fun (n, k) => do
+    let v ← (kv ts n).bind parseJV
+    if kindOK k v then some ("\"" ++ n ++ "\":" ++ renderJV v) else none
+  pure ("{" ++ ",".intercalate parts ++ "}")
+
+/-- JSON values, as far as the messages and the harness' decoys need them (no string escapes, integers only) -/
+inductive J where
+  | num (n : Nat)
+  | str (s : List Char)
+  | arr (xs : List J)
+  | obj (kvs : List (List Char × J))
+  | lit (s : String)
+
+def isWs (c : Char) : Bool := c = ' ' || c = '\n' || c = '\t' || c = '\r'
+
+mutual
+partial def pValue : List Char → Option (J × List Char)
+  | cs =>
+    match cs.dropWhile isWs with
+    | '{' :: r => pMembers (r.dropWhile isWs) []
+    | '[' :: r => pElems (r.dropWhile isWs) []
+    | '"' :: r =>
+      let s := r.takeWhile (· ≠ '"')
+      if s.contains '\\' then none
+      else match r.dropWhile (· ≠ '"') with
+        | _ :: r' => some (.str s, r')
+        | [] => none
+    | 't' :: 'r' :: 'u' :: 'e' :: r => some (.lit "true", r)
+    | 'f' :: 'a' :: 'l' :: 's' :: 'e' :: r => some (.lit "false", r)
+    | 'n' :: 'u' :: 'l' :: 'l' :: r => some (.lit "null", r)
+    | c :: r =>
+      if c.isDigit then
+        let ds := (c :: r).takeWhile Char.isDigit
+        let r' := (c :: r).dropWhile Char.isDigit
+        match r' with
+        | '.' :: _ => none
+        | 'e' :: _ => none
+        | 'E' :: _ => none
+        | _ => (String.ofList ds).toNat?.map fun n => (.num n, r')
+      else none
+    | [] => none
+partial def pMembers : List Char → List (List Char × J) → Option (J × List Char)
+  | '}' :: r, acc => some (.obj acc.reverse, r)
+  | cs, acc =>
+    match pValue cs with
+    | some (.str k, r) =>
+      match r.dropWhile isWs with
+      | ':' :: r2 =>
+        match pValue r2 with
+        | some (v, r3) =>
+          match r3.dropWhile isWs with
+          | ',' :: r4 => pMembers (r4.dropWhile isWs) ((k, v) :: acc)
+          | '}' :: r4 => some (.obj ((k, v) :: acc).reverse, r4)
+          | _ => none
+        | none => none
+      | _ => none
+    | _ => none
+partial def pElems : List Char → List J → Option (J × List Char)
+  | ']' :: r, acc => some (.arr acc.reverse, r)
+  | cs, acc =>
+    match pValue cs with
+    | some (v, r) =>
+      match r.dropWhile isWs with
+      | ',' :: r2 => pElems (r2.dropWhile isWs) (v :: acc)
+      | ']' :: r2 => some (.arr (v :: acc).reverse, r2)
+      | _ => none
+    | none => none
+end
+
+def parseJson (cs : List Char) : Option J :=
+  match pValue cs with
+  | some (v, r) => if (r.dropWhile isWs).isEmpty then some v else none
+  | none => none
+
+def jB64 : J → Option Bytes
+  | .str s => Rfc.b64Decode s
+  | _ => none
+
+/-- one field of a message out of a parsed object; a missing field is the empty / zero value -/
+def fieldOf (kvs : List (List Char × J)) (name : String) (k : Rfc.JKind) : Option JV :=
+  match kvs.lookup name.toList, k with
+  | none, .number => some (.num 0)
+  | none, .base64 => some (.bytes [])
+  | none, .base64List => some (.list [])
+  | none, .entryList => some (.entries [])
+  | some (.num n), .number => some (.num n)
+  | some v, .base64 => (jB64 v).map .bytes
+  | some (.arr xs), .base64List => (xs.mapM jB64).map .list
+  | some (.arr xs), .entryList =>
+    (xs.mapM fun (x : J) =>
+      match x with
+      | .obj m =>
+        match (m.lookup "leaf_input".toList).map jB64, (m.lookup "extra_data".toList).map jB64 with
+        | some (some a), some (some b) => some (a, b)
+        | none, some (some b) => some ([], b)
+        | some (some a), none => some (a, [])
+        | none, none => some ([], [])
+        | _, _ => none
+      | _ => none).map .entries
   | _, _ => none
 
-def b64Decode (s : List Char) : Option Bytes :=
-  b64Groups (s.filter fun c => c ≠ '\r' ∧ c ≠ '\n') #[]
-
-def asciiOf (b : Bytes) : List Char := b.map fun x => Char.ofNat x.toNat
+def readMsg (fields : List (String × Rfc.JKind)) (text : List Char) : Option String :=
+  match parseJson text with
+  | some (.obj kvs) => (fields.mapM fun (n, k) => (fieldOf kvs n k).map fun v => n ++ "=" ++ showJV v).map joinSp
+  | _ => none
 
 def handle (line : String) : String :=
   let ts := match tokens line with
@@ -126,6 +255,13 @@ def handle (line : String) : String :=
       | some se => if lt = 0 then hexRes (Rfc.merkleTreeLeaf ⟨v, ⟨t, se, ext⟩⟩) else "err"
       | none => "err"
     | _, _, _, _, _ => "bad-op"
+  | "SJ" :: "MerkleTreeLeaf" :: f =>
+    match kvNat f "v", kvNat f "ts", kvHex f "data", kvHex f "ext" with
+    | some v, some t, some d, some ext =>
+      match Tls.enc CtWire.tMerkleTreeLeaf (.struct [.num v, .num 0, .struct [.num t, .num 32768, .absent, .absent, .struct [.bytes d], .bytes ext]]) with
+      | .ok bs => hexOrDash bs
+      | .error _ => "err"
+    | _, _, _, _ => "bad-op"
   | "S" :: "TimestampedEntry" :: f =>
     match parseEntry f, kvNat f "ts", kvHex f "ext" with
     | some e, some t, some ext =>
@@ -153,6 +289,11 @@ def handle (line : String) : String :=
     match parseList f with
     | some c => hexRes (Rfc.sctList c)
     | none => "bad-op"
+  | "XD" :: f =>
+    match kv f "pre", kvHex f "cert", parseList f with
+    | some pre, some cert, some chain =>
+      if pre = "1" then hexRes (Rfc.precertChainEntry ⟨cert, chain⟩) else hexRes (Rfc.certChain chain)
+    | _, _, _ => "bad-op"
   | "SCTIN" :: f =>
     match parseEntry f, kvNat f "v", kvNat f "ts", kvHex f "ext" with
     | some e, some v, some t, some ext =>
@@ -168,7 +309,15 @@ def handle (line : String) : String :=
     match fromHex h with
     | none => "bad-op"
     | some bs =>
-      if name = "MerkleTreeLeaf" then decRes (Rfc.decMerkleTreeLeaf bs) showLeaf
+      if name = "MerkleTreeLeaf" then
+        match Rfc.decMerkleTreeLeaf bs with
+        | some r => decRes (some r) showLeaf
+        | none =>
+          -- not an RFC leaf; the repository's JSON extension (entry type 0x8000) is answered from the regenerated type
+          match Tls.dec CtWire.tMerkleTreeLeaf bs with
+          | .ok (.struct [.num v, .num 0, .struct [.num t, .num 32768, .absent, .absent, .struct [.bytes d], .bytes ext]], rest) =>
+            s!"ok json v={v} ts={t} data={hexOrDash d} ext={hexOrDash ext} rest={hexOrDash rest}"
+          | _ => "err"
       else if name = "SCT" then decRes (Rfc.decSct bs) fun s =>
         s!"v={s.version} id={hexOrDash s.logID} ts={s.timestamp} ext={hexOrDash s.extensions} {showDS s.signature}"
       else if name = "DS" then decRes (Rfc.decDigitallySigned bs) showDS
@@ -176,6 +325,10 @@ def handle (line : String) : String :=
       else if name = "PrecertChain" then decRes (Rfc.decPrecertChainEntry bs) fun e => s!"pre={hexOrDash e.preCertificate} {showChain e.chain}"
       else if name = "SCTList" then decRes (Rfc.decSctList bs) showChain
       else "bad-op"
+  | ["LH", l] =>
+    match fromHex l with
+    | some l => toHex (Sha256.hash (Rfc.leafHashInput l))
+    | none => "bad-op"
   | ["LEAF", l, x] =>
     match fromHex l, fromHex x with
     | some l, some x =>
@@ -187,20 +340,48 @@ def handle (line : String) : String :=
       | some (leaf, .precert e) => s!"ok {showLeaf leaf} cert={hexOrDash e.preCertificate} chain {showChain e.chain}"
       | none => "err"
     | _, _ => "bad-op"
+  | "JM" :: msg :: f =>
+    match Rfc.apiTable.lookup msg with
+    | some fields =>
+      match renderMsg fields f with
+      | some text => toHex text.toUTF8.toList
+      | none => "bad-op"
+    | none => "bad-op"
+  | ["JU", msg, h] =>
+    match Rfc.apiTable.lookup msg, fromHex h with
+    | some fields, some bs =>
+      match readMsg fields (asciiOf bs) with
+      | some s => "ok " ++ s
+      | none => "err"
+    | _, _ => "bad-op"
+  | "DS64" :: f =>
+    match parseDS f with
+    | some d =>
+      match Rfc.digitallySigned d with
+      | some bs => toHex (String.ofList (Rfc.b64Encode bs)).toUTF8.toList
+      | none => "err"
+    | none => "bad-op"
+  | ["DS64DEC", h] =>
+    match fromHex h with
+    | some bs =>
+      match (Rfc.b64Decode (asciiOf bs)).bind fun raw => Rfc.complete (Rfc.decDigitallySigned raw) with
+      | some d => "ok " ++ showDS d
+      | none => "err"
+    | none => "bad-op"
   | "TOSCT" :: f =>
     match kvNat f "v", kvHex f "id", kvNat f "ts", kvHex f "ext64", kvHex f "sig" with
     | some v, some id, some t, some e64, some sig =>
-      match b64Decode (asciiOf e64) with
+      match Rfc.b64Decode (asciiOf e64) with
       | none => "err"
       | some ext =>
-        match CtWire.toSCT v id t ext sig with
+        match CtWire.toSCTRfc v id t ext sig with
         | some s => s!"ok v={s.version} id={hexOrDash s.logID} ts={s.timestamp} ext={hexOrDash s.extensions} {showDS s.signature}"
         | none => "err"
     | _, _, _, _, _ => "bad-op"
   | "TOSTH" :: f =>
     match kvNat f "size", kvNat f "ts", kvHex f "root", kvHex f "sig" with
     | some n, some t, some root, some sig =>
-      match CtWire.toSTH n t root sig with
+      match CtWire.toSTHRfc n t root sig with
       | some s => s!"ok size={s.treeSize} ts={s.timestamp} root={hexOrDash s.rootHash} {showDS s.signature}"
       | none => "err"
     | _, _, _, _ => "bad-op"
